@@ -26,8 +26,9 @@ COMPONENTS = {
              "branches), PerCPUArrayMap, PerCPUVar, PerCPUReader", "code generator",
              "ebpfcat.bpf wrappers"],
     "stub": ["bpf() kernel side (maps, mmap, per-CPU values)", "eBPF interpreter"]}
-ASSUMPTIONS = ["values written are inside the declared format's range (out-of-range values "
-               "are C01's subject)", "fixed-point values with at most 5 fractional digits"]
+ASSUMPTIONS = ["values written are inside the declared format's range (what an out-of-range "
+               "value becomes is C01's subject; here such a write is only made to see that, "
+               "when it is refused, the variable keeps its value)", "fixed-point values with at most 5 fractional digits"]
 
 SCALAR = ["B", "H", "I", "Q", "b", "h", "i", "q", "x"]
 MULTI = ["3B", "4H", "16I", "5s", "2q", "BI", "HQ", "BHI"]   # the last three with native padding
@@ -326,6 +327,20 @@ def run(tape, scenario, want_c10=False):
                     setattr(obj(h), n, v)
                     model[(h, n)] = v
                     history.append(("py_write", h, n, f))
+                    if f != "x" and not f.endswith("s") and tape.chance("c08/refused-write", 10):
+                        # a value the format cannot hold is refused (struct.error): the
+                        # variable keeps what was written before, all of it
+                        last = f[-1]
+                        bad = 1 << (8 * struct.calcsize(last) + 1)
+                        bad = tuple(list(v[:-1]) + [bad]) if isinstance(v, tuple) else bad
+                        try:
+                            setattr(obj(h), n, bad)
+                        except Exception:
+                            world.count("c08/out-of-range-write-refused")
+                        else:
+                            model[(h, n)] = None      # (accepted: not judged any further)
+                            array_vars = [d for d in array_vars if (d[0], d[1]) != (h, n)]
+                            decls[:] = [d for d in decls if (d[0], d[1]) != (h, n)]
                 elif op == 1:
                     cpu = tape.draw("c08/cpu", online)      # programs run on online CPUs
                     try:
